@@ -30,6 +30,14 @@ GREEDY_VALUES = ("cp437", "hex", "utf8", "bcd", "raw", "datetime")
 def run(ctx, chk):
     crates = [ctx.crate("zvt_builder"), ctx.crate("zvt")]
     framing(chk, crates)
+    # the bounded view is established in `deserialize_tagged`: a packet decoder that does its own framing (peels the
+    # control field and the length by hand and hands the *rest* to the field decoder) bypasses it.  Necessary
+    # condition, shared with C03-c: command and container decoders delegate to deserialize_tagged.
+    import rules_c03
+    from report import Sub
+    sub = Sub(chk, "C14-a", lambda r: r in ("C03-c/framing", "C03-c/payload", "C03-c/tag"))
+    rules_c03.framing(ctx, sub)
+    chk.floor("packet decoders that delegate their framing (shared with C03-c)", sub.count, 4)
     # (c) contracts: reuse the C02 machinery restricted to the contract part
     crates2, sc = rules_c02.in_scope(ctx, rules_c02.thorough_extra(ctx, chk))
     n_k = 0
